@@ -9,9 +9,11 @@ two-sided identity, (4) commutativity and associativity on the partials.
 """
 
 import functools
+import json
 
 from .. import env, observe as O, refmodel as R, spec as S
 from . import common as C
+from ..history import permute_keys
 
 ID = "C01"
 LEVEL = "exploration"
@@ -121,13 +123,25 @@ def run_case(i, rng, tier):
     import histogrammar.defs as defs
 
     partials = []
+    reloaded = False
+    has_keys = any(n["k"] in ("Label", "UntypedLabel") and len(n["pairs"]) > 1 for _, n in S.walk(sp))
     for j, ch in enumerate(chunks):
-        mode = (i + j) % 3
+        mode = (i + j) % 5
         if unit:
             p = functools.reduce(defs.increment, [r for r, _ in ch], whole.zero())
             counters["partials_via_increment"] = counters.get("partials_via_increment", 0) + 1
         elif mode == 0:
             p = C.fill_all(whole.zero(), ch)
+        elif mode == 3 and has_keys:
+            # another worker wrote the keyword members in another order
+            p = C.fill_all(S.build(permute_keys(sp, rng)), ch)
+            counters["partials_key_permuted"] = counters.get("partials_key_permuted", 0) + 1
+        elif mode == 4 and i % 2:
+            # a partial that came back from storage written with sort_keys=True
+            p = C.fill_all(S.build(sp), ch)
+            p = env.hg().Factory.fromJson(json.loads(json.dumps(p.toJson(), sort_keys=True)))
+            reloaded = True
+            counters["partials_reloaded_sorted"] = counters.get("partials_reloaded_sorted", 0) + 1
         else:
             p = C.fill_all(S.build(sp), ch)
         partials.append(p)
@@ -175,7 +189,7 @@ def run_case(i, rng, tier):
 
     # the reduced aggregators stay live: further data filled into the whole, the + reduction and the += fold
     # must keep them equal (an accumulator goes on being incremented after a combine)
-    if k >= 2 and not failures:
+    if k >= 2 and not failures and not reloaded:
         more = S.gen_stream(rng, sp, rng.randint(1, 3), {"nonpos_p": 0.0})
         try:
             targets = [("whole", whole), ("reduce(+)", red)] + ([("+= fold", acc)] if "acc" in dir() else [])
@@ -231,7 +245,7 @@ def conclusive(agg):
     miss = [k for k in S.ALL_KINDS if k not in kinds]
     if miss:
         out.append("primitives never generated: %s" % ", ".join(miss))
-    for c in ("empty_chunks", "associativity_checked", "commutativity_checked", "partials_via_increment", "combine_folds"):
+    for c in ("empty_chunks", "associativity_checked", "commutativity_checked", "partials_via_increment", "combine_folds", "partials_key_permuted", "partials_reloaded_sorted"):
         if not agg.counters.get(c):
             out.append("never exercised: %s" % c)
     return out
